@@ -326,3 +326,18 @@ CHECKS['C19'] = dict(
     assumptions=['arbitrary unstructured content is outside the bound; the families target every field the open path reads'],
     budget={'quick': 300, 'thorough': 1200},
 )
+
+_CKS = H('h_cksum.c', 'asan', tu_flags={'mtbl/reader.c': ['-Dmmap=vf_mmap', '-Dmunmap=vf_munmap']})
+CHECKS['C12'] = dict(
+    level=FE, engine='envshim',
+    technique='exhaustive enumeration of bit-flip patterns (all single, double and triple flips; every burst with first and last flipped bit <=12 apart; pattern families for spans 13-32) in every block region of seed files, checked against mtbl_verify\'s own verify_file() and a verify_checksums reader',
+    text='Part 1: every file of the K9 structure sweep (depth<=3, six algorithms, prefix 0/13) must be reported OK by verify_file() of src/mtbl_verify.c (compiled into the harness, output captured) and drain completely through a verify_checksums reader. Part 2: on six seed files (writer-made: one tiny block, three ~600-byte blocks with lz4 / uncompressed with prefix; independently encoded: three tiny blocks in v2, v1 and zlib) every flip pattern of the families above is applied inside each block\'s checksum+stored-bytes region, data blocks and index block alike; verify_file must never print OK or return true, and a verify_checksums reader iterating from the start or doing get() on the damaged block\'s keys must stop on its assertion before handing out any entry of that block.',
+    jobs=[dict(name='intact', spec=_CKS, args=['intact'])] + [dict(name='damage-seed%d' % k, spec=_CKS, args=['damage', str(k)]) for k in range(6)],
+    states_key='states', transitions_key='transitions', traces_key='cases',
+    rule='one case = (seed, block region, flip pattern); signature = (seed, batch)',
+    bounds={'quick': 'triples: all for regions <=260 bits, else within a 40-bit window; pairs: all for regions <=1024 bits, else all within 64 bits plus a grid; bursts: every position (every 16th for regions >1024 bits) x all 2^(span-2) patterns for span<=12, 3+ pattern families for span 13..32',
+            'thorough': 'triples: all for regions <=700 bits; pairs within 256 bits plus a finer grid; bursts at every position'},
+    nonzero=['cases', 'intact_files_verified', 'verify_rejected', 'reader_stopped'],
+    assumptions=['damage to the length prefix is outside the statement', 'which assertion stops the process is not prescribed'],
+    budget={'quick': 420, 'thorough': 3000},
+)
